@@ -158,4 +158,19 @@ func (l *VerifLimiter) PurgeSubtract(removedWith, removedWithout []string) {
 
 func VerifMaxPurgeBytes() int64 { return maxPurgeBytes }
 
+// VerifStorageView: the limiter state of a REAL storage (NewDiskStorage, its goroutines running). The harness
+// reads it only while the limiter goroutine is parked at the hook point limiter.loop.
+func VerifStorageView(s Storage) *VerifLimiter {
+	if st, ok := s.(*storage); ok {
+		return &VerifLimiter{st}
+	}
+	return nil
+}
+
+// SendFlush is the flush ticker's send (NewDiskStorage).
+func (l *VerifLimiter) SendFlush() { l.S.itemsChan <- &itemWithOp{op: opFlushStorable} }
+
+// ChanLen: ops queued for the limiter goroutine.
+func (l *VerifLimiter) ChanLen() int { return len(l.S.itemsChan) }
+
 var _ = os.Remove
